@@ -79,6 +79,19 @@ def c17(ctx, rep):
         rep.violation("decode sweep length mismatch", {"go": len(a), "model": len(b)}, found=False)
     # (b) run-time correspondence with invalid bytes at every position class
     run_corr(ctx, rep, [("utf8", 300, 6000)], fields=["out", "val", "errs", "trace"], oracle=c17_oracle, emitted=(24, 300))
+    # every option hands back the option that restores the previous setting: AllowInvalidUTF8 (and the others) applied
+    # and undone before the parse must leave the result as it is
+    from .props import same_on
+    sample = [l for cid, l in rep.case_lines.items() if "~" not in cid and rep.impl_obs.get(cid, {}).get("out") not in corr.NONTERM][: ctx.q(400, 6000)]
+    hosts_u = {k: v + " -undo" for k, v in ctx.hosts().items()}
+    und = corr.run_impl(ctx.sc, hosts_u, sample, 3000)
+    for l in sample:
+        cid = corr.case_id(l)
+        a, i = und.get(cid, {}), rep.impl_obs.get(cid, {})
+        if a and a.get("out") not in corr.NONTERM and not same_on(["out", "val", "errs", "trace"], a, i):
+            rep.violation("applying an option and then the option it returned changes the result (AllowInvalidUTF8, MaxExpressions, Recover, Entrypoint, Memoize, Debug toggled and undone)",
+                          {"case": l, "plain": i, "after_toggle_and_undo": a}, found=True)
+    rep.cov["option_toggle_and_undo_cases"] = len(sample)
 
 # ------------------------------------------------------------------ known findings (run-time)
 def replay_runtime_known(ctx, k):
@@ -118,7 +131,7 @@ ALL_FIELDS = ["out", "val", "errs", "cnt", "maxfail", "gs", "trace"]
 @prop("C01", replay_known=replay_runtime_known)
 def c01(ctx, rep):
     run_corr(ctx, rep, [("c01", 1500, 20000), ("class", 300, 4000), ("enum", 400, 0), ("pack", 250, 0)], fields=["out", "val", "errs"],
-             ref_fields=["out", "val"], known_quirks=known_quirks_for("C01"), emitted=(48, 600))
+             ref_fields=["out", "val"], known_quirks=known_quirks_for("C01"), emitted=(48, 600), api=(400, 6000))
 
 # ------------------------------------------------------------------ C02
 def c02_oracle(case_line, impl, model):
@@ -176,12 +189,12 @@ def c11_oracle(case_line, impl, model):
 @prop("C11", replay_known=replay_runtime_known)
 def c11(ctx, rep):
     run_corr(ctx, rep, [("c11", 500, 12000), ("c08", 250, 5000)], fields=["out", "val", "errs"],
-             ref_fields=["out", "val", "errs"], oracle=c11_oracle, known_quirks=known_quirks_for("C11"), emitted=(24, 300))
+             ref_fields=["out", "val", "errs"], oracle=c11_oracle, known_quirks=known_quirks_for("C11"), emitted=(24, 300), api=(300, 4000))
 
 # ------------------------------------------------------------------ C12
 @prop("C12", replay_known=replay_runtime_known)
 def c12(ctx, rep):
-    run_corr(ctx, rep, [("c12", 600, 15000)], fields=["out", "errs", "maxfail"],
+    run_corr(ctx, rep, [("c12", 600, 15000), ("pack", 20, 200)], fields=["out", "errs", "maxfail"],
              ref_fields=["out", "errs", "maxfail"], known_quirks=known_quirks_for("C12"), emitted=(24, 300))
 
 # ------------------------------------------------------------------ C14
